@@ -347,6 +347,33 @@ def r5b_check_value_source(ctx, prog):
                             file=f['file'], line=c['l'])
 
 
+def r5c_supplied_check_value(ctx, prog):
+    """C_UnwrapKey builds the object from the caller's template *before* the unwrapped bytes are stored.  A CKA_CHECK_VALUE in that template must not travel with the other entries
+    (the attribute layer would compare it with the check value of a still empty key: the right value is refused, the check value of the empty string accepted and stored); it is
+    held back and compared with the check value of the unwrapped value (R5b decides which bytes that is computed over)."""
+    r = ctx.rule('C13.R5c', 'a CKA_CHECK_VALUE supplied to C_UnwrapKey does not reach the object before its value is stored', floor=1, engine='E1 finite-domain evaluation of the template copy loop')
+    f = prog.fn('SoftHSM::C_UnwrapKey')
+    ctx.analysed(f)
+    pt, pc_ = param_name(f, 5), param_name(f, 6)
+    kcv, secret = macro(prog, 'CKA_CHECK_VALUE'), macro(prog, 'CKO_SECRET_KEY')
+    arrays = {d['var']['name'] for n in walk(f['body']) if n.get('k') == 'Decl' for d in n['decls'] if re.match(r'CK_ATTRIBUTE\s*\[', d.get('type', '').replace('struct ', ''))}
+    o = Outcomes(f, prog, cenv={pc_: 1, '#concrete-loops': 1, re.compile(r'%s\[\w+\]\.type' % re.escape(pt)): kcv, 'objClass': secret, 'isInitialised': 1})
+    o.CAP = 96
+    o.LOOP_ROUNDS = 1
+    o.go()
+    r.paths += len(o.outcomes)
+    copied = [(oc, e) for oc in o.outcomes for e in oc['events'] if e[0] == 'write' and any(re.match(r'%s\[' % re.escape(a), e[1]) for a in arrays) and re.search(r'%s\[' % re.escape(pt), str(e[2] if len(e) > 2 else ''))]
+    site = 'template entry CKA_CHECK_VALUE of a secret key'
+    if not o.outcomes:
+        r.undecided(f['qname'], site, 'no path', file=f['file'], line=f['line'])
+    elif copied:
+        oc, e = copied[0]
+        r.violation(f['qname'], site, 'the caller\'s CKA_CHECK_VALUE entry is copied into the attribute array the object is created from (%s): it is compared with the check value of the still empty key - the correct check value is refused and the check value of the empty string is accepted and stored' % e[1],
+                    file=f['file'], line=e[3] if len(e) > 3 else f['line'], path=oc['path'])
+    else:
+        r.ok(f['qname'], site, '%d paths, the entry is held back' % len(o.outcomes), file=f['file'], line=f['line'])
+
+
 def r6_caller_iv(ctx, prog):
     r = ctx.rule('C13.R6', 'CBC wrapping and unwrapping run under the caller\'s IV: the IV handed to the cipher has the block size and is copied from the mechanism parameter', floor=4, engine='E8 finite-domain')
     for q, init in (('SoftHSM::WrapKeySym', 'encryptInit'), ('SoftHSM::UnwrapKeySym', 'decryptInit')):
@@ -584,6 +611,7 @@ def run(ctx):
     r4_truncation(ctx, po)
     r5_check_values(ctx, po)
     r5b_check_value_source(ctx, po)
+    r5c_supplied_check_value(ctx, po)
     r6_caller_iv(ctx, po)
     c10.r3_stripped_length(ctx, [('ossl-file', po), ('botan-file', pb)], rule_id='C13.R7')
     c10.r10_secret_measure(ctx, [('ossl-file', po), ('botan-file', pb)], rule_id='C13.R11')
